@@ -132,7 +132,7 @@ class Recorder:
 
 def rand_domain(g):
     rng = g.rng
-    kind = rng.choice(["elems", "ints", "floats", "mixed", "exp-floats", "several"])
+    kind = rng.choice(["elems", "ints", "floats", "mixed", "exp-floats", "several", "empty"])
     g.count("domain_kind", kind)
     elems = rng.sample(["low", "mid", "high", 1, 2.5, True, "two words"], rng.randint(1, 4))
     irange = (rng.randint(-20, 5), rng.randint(5, 50))
@@ -140,6 +140,8 @@ def rand_domain(g):
         # integer bounds no double can hold
         irange = rng.choice([(2**53 + 1, 2**53 + 1), (2**53 + 1, 2**53 + 5), (-(2**60) - 3, -(2**60) - 1), (10**22 + 7, 10**22 + 9)])
     frange = rng.choice([(0.5, 2.75), (0.0, 1.0), (-3.25, 3.5), (10.0, 10.5), (1, 2.5), (0.125, 4)])
+    if kind == "empty":
+        return dict(ranges=[], elems=[])       # nothing to draw: a library error, like a missing domain
     if kind == "elems":
         return dict(ranges=[], elems=elems)
     if kind == "ints":
@@ -220,6 +222,13 @@ def run_genrandom(ctx):
         mrep = sx.loads(ctx.model.call_raw(req))
         mrep = sx.dumps(resolve_decimals(mrep))
         st.record("gen", req, irep, mrep)
+        if not d["ranges"] and not d["elems"]:
+            # no value can be drawn: a library error like a missing domain, and the model stays as it was
+            if irep != "(err FlamaException)":
+                st.oracle_fail("gen", req, "empty-domain-is-a-library-error", irep[:200])
+            if sx.dumps(spec.fm_sx(spec.dump_fm(fm))) != sx.dumps(spec.fm_sx(m)):
+                st.oracle_fail("gen", req, "rest-of-the-model-changed", "after the error")
+            continue
         if after is None:
             st.oracle_fail("gen", req, "raises", irep)
             continue
